@@ -11,7 +11,7 @@ KINDS = ['centre', 'side', 'rise', 'decay']
 
 
 def times_of(n, fs):
-    return np.arange(0, n / fs, 1 / fs)
+    return np.arange(n) / fs
 
 
 def xlim_of(n, fs, a, b):
